@@ -12,6 +12,8 @@ import PrqlModel.Drv.Json
 import PrqlModel.Drv.Projection
 import PrqlModel.Drv.Clause
 import PrqlModel.Drv.Window
+import PrqlModel.Drv.Lit
+import PrqlModel.Drv.Names
 namespace Drv
 
 def handlers : List (List String → Option String) := [
@@ -22,7 +24,9 @@ def handlers : List (List String → Option String) := [
   Drv.Json.handle,
   Drv.Projection.handle,
   Drv.Clause.handle,
-  Drv.Window.handle
+  Drv.Window.handle,
+  Drv.Lit.handle,
+  Drv.Names.handle
 ]
 
 def handle (fields : List String) : String :=
